@@ -1,7 +1,7 @@
 /-
-  Proofs/FaultLemmasE6.lean — non-vacuity: concrete epochs from `init` in which calls fail, evaluated by `decide`, so
-  that the hypotheses of the history theorems (`Fresh p0`, `Epoch p0 h p`, `OkV` of every call) are seen to be
-  satisfiable, and the three ways a failed call resolves after a restart are all seen to occur.
+  Proofs/FaultLemmasE6.lean — non-vacuity: concrete epochs from `init` in which calls fail under explicit fault plans,
+  evaluated by `decide`, so that the hypotheses of the history theorems (`Fresh p0`, `Epoch p0 h p`, `OkV` of every
+  call) are seen to be satisfiable, and the ways a failed call resolves after a restart are all seen to occur.
 -/
 import RaftWal.Proofs.FaultLemmasE5
 namespace RaftWal.Fault.E
@@ -32,18 +32,18 @@ def opC : Op := .store 3 [10] false
 def histE1 : Hist := [(opA, true), (opB, false), (opC, true)]
 
 /-- after `opA` (no fault) and `opB` (its pwrite fails, the whole batch is in the file beyond the writer's offset) -/
-def procE1b : Proc := (runOp (runOp proc0 opA none .nothing).1 opB (some 0) .whole).1
+def procE1b : Proc := (runOp (runOp proc0 opA []).1 opB [some .whole]).1
 /-- … and after `opC` (no fault), which goes over what `opB` left -/
-def procE1 : Proc := (runOp procE1b opC none .nothing).1
+def procE1 : Proc := (runOp procE1b opC []).1
 
 theorem epochE1b : Epoch proc0 [(opA, true), (opB, false)] procE1b := by
   have e0 : Epoch proc0 [] proc0 := Epoch.start
-  have e1 := Epoch.call [] proc0 opA none .nothing e0 (by decide)
-  have e2 := Epoch.call _ _ opB (some 0) .whole e1 (by decide)
+  have e1 := Epoch.call [] proc0 opA [] e0 (by decide)
+  have e2 := Epoch.call _ _ opB [some .whole] e1 (by decide)
   exact e2
 
 theorem epochE1 : Epoch proc0 histE1 procE1 :=
-  Epoch.call _ _ opC none .nothing epochE1b (by decide)
+  Epoch.call _ _ opC [] epochE1b (by decide)
 
 /-- three calls from `init`, the second fails: readers never see it, the invariant holds, the disk agrees with readers -/
 theorem example_epoch_fail :
@@ -65,8 +65,8 @@ theorem example_failed_call_applied :
 /-- the same failed pwrite leaving nothing (or garbage): the call is not applied -/
 theorem example_failed_call_dropped :
     ∀ wf, wf = .nothing ∨ wf = .garbage →
-      (runOp (runOp proc0 opA none .nothing).1 opB (some 0) wf).2 = false ∧
-      absLog (runOp (runOp proc0 opA none .nothing).1 opB (some 0) wf).1.disk = [(1, 7), (2, 8)] := by
+      (runOp (runOp proc0 opA []).1 opB [some wf]).2 = false ∧
+      absLog (runOp (runOp proc0 opA []).1 opB [some wf]).1.disk = [(1, 7), (2, 8)] := by
   intro wf h
   rcases h with rfl | rfl <;> decide
 
@@ -78,14 +78,17 @@ def opU : Op := .set 1 1
 
 def histE2 : Hist := [(opS, true), (opT, false), (opU, true)]
 
-def procE2a : Proc := (runOp proc0 opS (some 3) .nothing).1
-def procE2 : Proc := (runOp (runOp procE2a opT none .nothing).1 opU none .nothing).1
+/-- write, fsync, the rotation's commit succeed; its Create fails -/
+def planS : Plan := [none, none, none, some .nothing]
+
+def procE2a : Proc := (runOp proc0 opS planS).1
+def procE2 : Proc := (runOp (runOp procE2a opT []).1 opU []).1
 
 theorem epochE2 : Epoch proc0 histE2 procE2 := by
   have e0 : Epoch proc0 [] proc0 := Epoch.start
-  have e1 := Epoch.call [] proc0 opS (some 3) .nothing e0 (by decide)
-  have e2 := Epoch.call _ _ opT none .nothing e1 (by decide)
-  have e3 := Epoch.call _ _ opU none .nothing e2 (by decide)
+  have e1 := Epoch.call [] proc0 opS planS e0 (by decide)
+  have e2 := Epoch.call _ _ opT [] e1 (by decide)
+  have e3 := Epoch.call _ _ opU [] e2 (by decide)
   exact e3
 
 /-- a sealing append returns nil, its rotation commits and then cannot create the next tail: the process is stopped
@@ -96,5 +99,83 @@ theorem example_epoch_stopped :
     ∃ p', restart procE2 = some p' ∧ view p' = [(1, 7)] ∧ p'.frozen = none ∧ FInvS p' := by
   refine ⟨epochE2, by decide, by decide, by decide, by decide, (restart procE2).get (by decide), by simp, ?_, ?_, ?_⟩ <;>
     decide
+
+/-! ### example 3: TWO actions of one call fail — a StoreLogs whose base-index reset succeeds (commit, create), whose
+    append's pwrite fails with every byte in the file, and whose deferred delete of the replaced tail fails as well -/
+
+def opR : Op := .store 5 [9] false
+def opR' : Op := .store 5 [10] false
+def opR'' : Op := .store 6 [11] false
+
+/-- commit ok, create ok, write fails (whole batch left), [no fsync: the append ended], delete fails -/
+def planR : Plan := [none, none, some .whole, some .nothing]
+
+def histE3 : Hist := [(opR, false), (opR', true), (opR'', true)]
+
+def procE3a : Proc := (runOp proc0 opR planR).1
+def procE3 : Proc := (runOp (runOp procE3a opR' []).1 opR'' []).1
+
+theorem epochE3a : Epoch proc0 [(opR, false)] procE3a :=
+  Epoch.call [] proc0 opR planR Epoch.start (by decide)
+
+theorem epochE3 : Epoch proc0 histE3 procE3 := by
+  have e2 := Epoch.call _ _ opR' [] epochE3a (by decide)
+  have e3 := Epoch.call _ _ opR'' [] e2 (by decide)
+  exact e3
+
+/-- after the call with two failures: it returned an error, the replaced tail's file (id 0) is still there next to the
+    new tail (id 1) that carries the failed batch beyond the writer's offset; readers see the empty log, the disk stands
+    for the log with the failed call applied, the invariant holds, and a restart recovers `[(5, 9)]` and removes file 0 -/
+theorem example_two_failures :
+    (runOp proc0 opR planR).2 = false ∧ FInvS procE3a ∧ procE3a.disk.files.map (·.id) = [0, 1] ∧
+    view procE3a = [] ∧ absLog procE3a.disk = [(5, 9)] ∧
+    ∃ p', restart procE3a = some p' ∧ view p' = [(5, 9)] ∧ p'.disk.files.map (·.id) = [1] ∧ FInvS p' ∧
+      view p' = replay (view proc0) [(opR, true)] ∧ Resolves [(opR, false)] [(opR, true)] := by
+  refine ⟨by decide, by decide, by decide, by decide, by decide, (restart procE3a).get (by decide), by simp, ?_, ?_, ?_, ?_,
+    resolves_single opR (fun _ => rfl)⟩ <;> decide
+
+/-- … and the epoch goes on: the next appends go over what the failed one left; the file whose delete failed stays -/
+theorem example_epoch_two_failures :
+    Epoch proc0 histE3 procE3 ∧ FInvS procE3 ∧ view procE3 = [(5, 10), (6, 11)] ∧
+    view procE3 = replay (view proc0) histE3 ∧ absLog procE3.disk = [(5, 10), (6, 11)] ∧
+    procE3.disk.files.map (·.id) = [0, 1] :=
+  ⟨epochE3, by decide, by decide, by decide, by decide, by decide⟩
+
+/-! ### example 4: a persistent fsync failure — every fsync fails, call after call, until the fault goes away -/
+
+/-- the pwrite succeeds, the fsync fails (and any further action of the call would fail too) -/
+def planF : Plan := [none, some .nothing, some .nothing, some .nothing]
+
+def histE4 : Hist := [(opA, true), (opB, false), (opB, false), (opC, true)]
+
+def procE4b : Proc := (runOp (runOp (runOp proc0 opA []).1 opB planF).1 opB planF).1
+def procE4 : Proc := (runOp procE4b opC []).1
+
+theorem epochE4b : Epoch proc0 [(opA, true), (opB, false), (opB, false)] procE4b := by
+  have e1 := Epoch.call [] proc0 opA [] Epoch.start (by decide)
+  have e2 := Epoch.call _ _ opB planF e1 (by decide)
+  have e3 := Epoch.call _ _ opB planF e2 (by decide)
+  exact e3
+
+theorem epochE4 : Epoch proc0 histE4 procE4 := Epoch.call _ _ opC [] epochE4b (by decide)
+
+/-- two appends in a row fail at their fsync (the batch is written, not fsynced: readers do not see it, a restart
+    finds it whole), the third succeeds and goes over it -/
+theorem example_persistent_fsync :
+    Epoch proc0 histE4 procE4 ∧ FInvS procE4b ∧ view procE4b = [(1, 7), (2, 8)] ∧
+    absLog procE4b.disk = [(1, 7), (2, 8), (3, 9)] ∧
+    (∃ p', restart procE4b = some p' ∧ view p' = [(1, 7), (2, 8), (3, 9)]) ∧
+    FInvS procE4 ∧ view procE4 = [(1, 7), (2, 8), (3, 10)] ∧ view procE4 = replay (view proc0) histE4 ∧
+    absLog procE4.disk = [(1, 7), (2, 8), (3, 10)] := by
+  refine ⟨epochE4, by decide, by decide, by decide, ⟨(restart procE4b).get (by decide), by simp, ?_⟩, by decide, by decide,
+    by decide, by decide⟩
+  decide
+
+/-- a sealing tail truncation whose ForceSeal's fsync fails persistently: the call fails, nothing is committed -/
+theorem example_persistent_fsync_delTail :
+    OkV (view procE1) (.delTail 2) ∧ (runOp procE1 (.delTail 2) planF).2 = false ∧
+    FInvS (runOp procE1 (.delTail 2) planF).1 ∧ view (runOp procE1 (.delTail 2) planF).1 = [(1, 7), (2, 8), (3, 10)] ∧
+    absLog (runOp procE1 (.delTail 2) planF).1.disk = [(1, 7), (2, 8), (3, 10)] :=
+  ⟨by decide, by decide, by decide, by decide, by decide⟩
 
 end RaftWal.Fault.E
